@@ -150,6 +150,18 @@ func c01Case(w *rt.W, st *c01State, y int64, m, d int, slow bool) {
 				c01Fail(w, "out-verb", y, m, d, "Sprintf "+vb.verb, s, vb.want)
 			}
 		}
+		if !w.C.Quick() || (y+int64(m)+int64(d))%8 == 0 {
+			for _, verb := range letterVerbs { // only %b selects the basic format
+				wantV := wantE
+				if verb == "%b" {
+					wantV = wantB
+				}
+				if s := fmt.Sprintf(verb, dt); s != wantV {
+					c01Fail(w, "out-verb", y, m, d, "Sprintf "+verb, s, wantV)
+				}
+			}
+			w.Eval(49)
+		}
 		if s := fmt.Sprintf("%+v", struct{ D date.Date }{dt}); s != "{D:"+wantE+"}" {
 			c01Fail(w, "out-verb", y, m, d, "Sprintf %+v of a struct holding the date", s, "{D:"+wantE+"}")
 		}
